@@ -166,7 +166,7 @@ ArchStart == \E d \in 1..2 :
     /\ cur' = [dim |-> d, shape |-> d, layers |-> <<>>, depth |-> 0] /\ hist' = [dim |-> d, calls |-> <<>>] /\ stage' = "a"
 \* from the fourth call on only a small sub-alphabet (the bounded instance with N = 4 would otherwise have 150 000 behaviours)
 CallsLate == {c \in Calls : c.call \in {"linear", "relu", "argmax"} \/ (c.call = "partial_relu" /\ c.idx = 1)}
-ArchCall == \E c \in (IF cur.depth < 3 THEN Calls ELSE CallsLate) :
+ArchCall == \E c \in (IF MODE = "arch" /\ stage = "a" /\ cur.depth >= 3 THEN CallsLate ELSE Calls) :
     /\ stage = "a" /\ MODE = "arch" /\ cur.depth < N
     /\ cur' = [dim |-> cur.dim, shape |-> ShapeAfter(cur.shape, c), depth |-> cur.depth + 1,
                layers |-> IF Accepts(cur.shape, c) THEN cur.layers \o LayersOf(cur.shape, c) ELSE cur.layers]
